@@ -76,6 +76,14 @@ func RunConcurrent(profile string, seed int64, dur time.Duration, workers int, o
 	defer locking.VerifRecordLocks(false)
 	res := &ConcResult{}
 	var rmu sync.Mutex
+	var seq atomic.Int64
+	var opLog []M
+	logOp := func(who string, op M, when string) {
+		n := seq.Add(1)
+		rmu.Lock()
+		opLog = append(opLog, M{"n": n, "who": who, "when": when, "op": gs(op, "op"), "app": gs(op, "app"), "key": gs(op, "key"), "node": gs(op, "node"), "term": gs(op, "term")})
+		rmu.Unlock()
+	}
 	var stopDrivers, stopAll atomic.Bool
 	var wg, bg sync.WaitGroup
 	start := time.Now()
@@ -118,6 +126,7 @@ func RunConcurrent(profile string, seed int64, dur time.Duration, workers int, o
 				if rng.Intn(8) != 0 {
 					todo = append(todo[:i], todo[i+1:]...)
 				}
+				logOp("confirm", M{"op": "confirm", "app": m["app"], "key": m["key"], "term": m["term"]}, "start")
 				safely(res, &rmu, "confirm", func() {
 					w.CC.VerifUpdateAllocations(w.releaseReq(m["app"].(string), m["key"].(string), ttOf(m["term"].(string))))
 				})
@@ -186,10 +195,16 @@ func RunConcurrent(profile string, seed int64, dur time.Duration, workers int, o
 			defer wg.Done()
 			g := NewGen(p, seed*1000+int64(d))
 			pre := fmt.Sprintf("w%d", d)
+			gen := map[string]int{} // application ids are never reused: a removed id comes back as a new generation
 			for !stopDrivers.Load() {
 				op := g.Next()
 				switch gs(op, "op") {
-				case "addNode", "removeNode", "drain", "undrain":
+				case "removeNode", "removeApp":
+					// node / application removal racing with a scheduling cycle is a KNOWN defect family
+					// (KF-C14-REMOVAL-DURING-CYCLE, decided by the gate scenarios); the sampled sessions keep clear of it so that
+					// their final state can be judged
+					continue
+				case "addNode", "drain", "undrain":
 					if d != 0 { // one stream does the node churn
 						continue
 					}
@@ -198,16 +213,25 @@ func RunConcurrent(profile string, seed int64, dur time.Duration, workers int, o
 						continue
 					}
 					reloaded.Store(true)
+				case "schedule":
+					// there is exactly one scheduling goroutine in the core: the request streams never run a cycle themselves
+					time.Sleep(20 * time.Microsecond)
+					continue
 				case "updateNode", "foreign", "foreignRemove", "reportBound", "updateAsk", "quotaTick", "firePhTimer", "fireStateTimer", "confirm", "restart", "bad", "cleanQueues":
 					continue // externally forced changes are out of scope here; timers/confirmations have their own goroutines
 				}
 				if a := gs(op, "app"); a != "" {
-					op["app"] = pre + a
+					op["app"] = fmt.Sprintf("%s%sg%d", pre, a, gen[a])
+					if gs(op, "op") == "removeApp" {
+						gen[a]++
+					}
 				}
 				if k := gs(op, "key"); k != "" {
 					op["key"] = pre + k
 				}
+				logOp(pre, op, "start")
 				safely(res, &rmu, gs(op, "op"), func() { w.applyRaw(op) })
+				logOp(pre, op, "end")
 				atomic.AddInt64(&res.Ops, 1)
 				if g.rng.Intn(4) == 0 {
 					time.Sleep(50 * time.Microsecond)
@@ -265,12 +289,30 @@ func RunConcurrent(profile string, seed int64, dur time.Duration, workers int, o
 		return nil, err
 	}
 	w.seenLog = map[string]int{}
+	if res.Blocked == nil {
+		res.Blocked = []string{}
+	}
+	if res.Panics == nil {
+		res.Panics = []string{}
+	}
 	final := M{"op": "final", "panic": strings.Join(res.Panics, " || "), "dpanic": 0, "hang": len(res.Blocked) > 0 || res.Deadlock, "msgs": []M{}, "pred": []M{},
 		"reloaded": reloaded.Load(), "settled": res.Settled, "blocked": res.Blocked, "state": w.Project()}
 	if err := enc.Encode(final); err != nil {
 		return nil, err
 	}
 	f.Close()
+	if os.Getenv("VERIF_CONC_LOG") != "" {
+		lf, _ := os.Create(out + ".log.ndjson")
+		le := json.NewEncoder(lf)
+		for _, o := range opLog {
+			_ = le.Encode(o)
+		}
+		for i, m := range w.H.Peek() {
+			m["i"] = i
+			_ = le.Encode(m)
+		}
+		lf.Close()
+	}
 	edges := locking.VerifLockEdges()
 	res.LockEdges = len(edges)
 	type E struct {
